@@ -387,7 +387,11 @@ pub fn property() -> Property {
     Property {
         id: "C13",
         level: "exploration",
-        parts: vec![Box::new(PropPart(HelloPart)), Box::new(PropPart(ReplyPart))],
+        parts: vec![
+            Box::new(PropPart(HelloPart)),
+            Box::new(PropPart(ReplyPart)),
+            Box::new(PropPart(crate::props::agent_parts::C13Config)),
+        ],
     }
 }
 
